@@ -106,11 +106,15 @@ def alpnList : String → Option (List String)
   | "h2only" => some ["h2"]
   | _ => none
 
-/-- One client of a case. -/
+/-- One client of a case, as the ORACLE reads it: its URI and what it was configured with —
+for a configuration derived from other clients' configurations (`^k`), the builder sequence is
+`Spec.Tls.ownOps` of the case's program text. -/
 structure ClientPart where
   scheme : Scheme
   uri : Uri
   client : ClientSetup
+  /-- `cfg - …`: only defines a configuration for later clients to clone; makes no endpoint -/
+  cfgOnly : Bool := false
 
 /-- `tlsf <feat> <store>`: which build of tonic ran the case, and what the platform certificate
 store held (`SSL_CERT_FILE`). -/
@@ -143,6 +147,9 @@ structure Case where
   s : ServerPart
   /-- build features and platform store the case ran with -/
   sys : Sys Cert
+  /-- the MODEL's endpoint of this client: the value of its endpoint variable after the process
+  model (`Tls.Proc`) ran the whole case as one program -/
+  ep : Except CfgErr (Endpoint Cert (List Cert))
 
 def splitAt? (ts : List String) : Option (List String × List String) :=
   match ts.span (· ≠ ";") with
@@ -155,14 +162,129 @@ def splitBar (ts : List String) : List (List String) :=
     | [] => [[t]]
     | g :: gs => (t :: g) :: gs) [[]]
 
-def parseClient (ts : List String) : Option ClientPart :=
+/-! A client part is `<scheme> <urihost> [@k] [^j] <ops…>` (or `… notls`, `… auto`), or
+`cfg - [^j] <ops…>`.  `^j`: the configuration starts as a clone of client `j`'s configuration
+VALUE (`cfg_j.clone().<ops>`) instead of `ClientTlsConfig::new()`.  `@k`: the endpoint is a
+clone of client `k`'s endpoint VALUE (same scheme and host tokens) — connected as it is when
+nothing follows, else given `tls_config(<the configuration>)`.  `j`, `k` < own index. -/
+
+inductive Body
+  | notls | auto
+  | ops (src : Option Nat) (l : List COp)
+  /-- bare `@k` -/
+  | same
+
+structure RawClient where
+  schemeTok : String
+  hostTok : String
+  cfgOnly : Bool := false
+  epRef : Option Nat := none
+  body : Body
+
+def refTok (pre : String) (t : String) : Option Nat :=
+  if t.startsWith pre then (t.drop pre.length).toString.toNat? else none
+
+def parseCfgBody (ts : List String) : Option Body :=
   match ts with
-  | sch :: uh :: cops =>
-    match schemeOf sch, hostOf uh, clientSetup cops with
-    | some scheme, some host, some client =>
-      some { scheme, uri := { scheme := some scheme, host := some host }, client }
-    | _, _, _ => none
+  | t :: rest =>
+    match refTok "^" t with
+    | some j => (mapM? clientOp rest).map (.ops (some j))
+    | none => (mapM? clientOp ts).map (.ops none)
+  | [] => some (.ops none [])
+
+def parseRaw (ts : List String) : Option RawClient :=
+  match ts with
+  | "cfg" :: "-" :: rest =>
+    (parseCfgBody rest).map fun b => { schemeTok := "cfg", hostTok := "-", cfgOnly := true, body := b }
+  | sch :: uh :: rest =>
+    match rest with
+    | ["notls"] => some { schemeTok := sch, hostTok := uh, body := .notls }
+    | ["auto"] => some { schemeTok := sch, hostTok := uh, body := .auto }
+    | t :: rest' =>
+      match refTok "@" t with
+      | some k =>
+        if rest'.isEmpty then some { schemeTok := sch, hostTok := uh, epRef := some k, body := .same }
+        else (parseCfgBody rest').map fun b => { schemeTok := sch, hostTok := uh, epRef := some k, body := b }
+      | none => (parseCfgBody rest).map fun b => { schemeTok := sch, hostTok := uh, body := b }
+    | [] => some { schemeTok := sch, hostTok := uh, body := .ops none [] }
   | _ => none
+
+/-- how the oracle will read a client's configuration once the program text is complete -/
+inductive OSetup
+  | notls | auto
+  | cfg (cv : Nat)
+
+/-- The case's clients as ONE program (`Tls.Stmt`): variables are numbered as they are defined;
+per client the configuration variable it defined, the endpoint variable it ends up with. -/
+structure Res where
+  prog : List (Stmt Cert (List Cert)) := []
+  ncfg : Nat := 0
+  nep : Nat := 0
+  toks : List (String × String) := []
+  cfgVar : List (Option Nat) := []
+  epVar : List (Option Nat) := []
+  osetup : List (Option OSetup) := []
+  parts : List (Scheme × Uri) := []
+
+def cfgStmt (st : Res) (src : Option Nat) (l : List COp) : Option (Stmt Cert (List Cert)) :=
+  match src with
+  | none => some (.config none l)
+  | some j =>
+    match st.cfgVar[j]? with
+    | some (some cv) => some (.config (some cv) l)
+    | _ => none
+
+def Res.push (st : Res) (r : RawClient) (su : Scheme × Uri) (stmts : List (Stmt Cert (List Cert)))
+    (dcfg dep : Nat) (cv ev : Option Nat) (os : Option OSetup) : Res :=
+  { prog := st.prog ++ stmts, ncfg := st.ncfg + dcfg, nep := st.nep + dep,
+    toks := st.toks ++ [(r.schemeTok, r.hostTok)], cfgVar := st.cfgVar ++ [cv], epVar := st.epVar ++ [ev],
+    osetup := st.osetup ++ [os], parts := st.parts ++ [su] }
+
+def resolveStep (st : Res) (r : RawClient) : Option Res :=
+  if r.cfgOnly then
+    match r.body with
+    | .ops src l =>
+      (cfgStmt st src l).map fun s =>
+        st.push r (.http, { scheme := none, host := none }) [s] 1 0 (some st.ncfg) none none
+    | _ => none
+  else
+    match schemeOf r.schemeTok, hostOf r.hostTok with
+    | some scheme, some host =>
+      let uri : Uri := { scheme := some scheme, host := some host }
+      let su := (scheme, uri)
+      match r.epRef, r.body with
+      | none, .notls => some (st.push r su [.endpoint uri, .connect st.nep] 0 1 none (some st.nep) (some .notls))
+      | none, .auto => some (st.push r su [.endpointNew uri, .connect st.nep] 0 1 none (some st.nep) (some .auto))
+      | none, .ops src l =>
+        (cfgStmt st src l).map fun s =>
+          st.push r su [s, .endpoint uri, .tlsConfig st.nep st.ncfg, .connect (st.nep + 1)] 1 2
+            (some st.ncfg) (some (st.nep + 1)) (some (.cfg st.ncfg))
+      | some k, body =>
+        match st.epVar[k]?, st.toks[k]?, st.osetup[k]? with
+        | some (some ek), some tk, some osk =>
+          if tk ≠ (r.schemeTok, r.hostTok) then none else
+          match body with
+          | .same => some (st.push r su [.cloneEndpoint ek, .connect st.nep] 0 1 none (some st.nep) osk)
+          | .ops src l =>
+            (cfgStmt st src l).map fun s =>
+              st.push r su [s, .tlsConfig ek st.ncfg, .connect st.nep] 1 1
+                (some st.ncfg) (some st.nep) (some (.cfg st.ncfg))
+          | _ => none
+        | _, _, _ => none
+      | none, .same => none
+    | _, _ => none
+
+def resolve (raws : List RawClient) : Option Res :=
+  raws.foldl (fun st r => st.bind (resolveStep · r)) (some {})
+
+/-- the oracle's reading of client `i` -/
+def oracleSetup (st : Res) (i : Nat) : Option ClientSetup :=
+  match st.osetup[i]? with
+  | some (some .notls) => some .notls
+  | some (some .auto) => some .auto
+  | some (some (.cfg cv)) => (Spec.Tls.ownOps st.prog cv).map .ops
+  | some none => some .notls     -- `cfg -`: no endpoint; not judged
+  | none => none
 
 /-- transport token: `tcp|duplex` then any of `-lazy` (connect_with_connector_lazy + one retry),
 `-x2` (two connections per client), `-par` (clients run concurrently) — only `-x2` changes the
@@ -187,10 +309,24 @@ def clientFits (y : Sys Cert) (c : ClientPart) : Bool :=
 def parseCasesWith (y : Sys Cert) (rest : List String) : Option (List Case) :=
   match splitAt? rest with
   | some (cpart, [sc, alpn, sops, tr]) =>
-    match mapM? parseClient (splitBar cpart), certOf sc, serverOps sops, parseTransport tr with
-    | some clients, some serverCert, some sops, some (inner, twice) =>
+    match (mapM? parseRaw (splitBar cpart)).bind resolve, certOf sc, serverOps sops, parseTransport tr with
+    | some st, some serverCert, some sops, some (inner, twice) =>
       let s : ServerPart := { serverCert, alpn, sops, inner, twice }
-      if clients.all (clientFits y) then some (clients.map fun c => { c, s, sys := y }) else none
+      -- the model: the whole case as one process
+      let p := Proc.run y st.prog
+      let cases? := mapM? (fun i =>
+        match st.parts[i]?, oracleSetup st i, st.epVar[i]? with
+        | some (scheme, uri), some client, some ev =>
+          let cfgOnly := ev.isNone
+          let ep? : Option (Except CfgErr (Endpoint Cert (List Cert))) :=
+            match ev with
+            | some e => p.eps[e]?
+            | none => some (.ok (Endpoint.fromShared uri))
+          ep?.map fun ep => ({ c := { scheme, uri, client, cfgOnly }, s, sys := y, ep } : Case)
+        | _, _, _ => none) (List.range st.parts.length)
+      match cases? with
+      | some cs => if cs.all (fun c => clientFits y c.c) then some cs else none
+      | none => none
     | _, _, _, _ => none
   | _ => none
 
@@ -202,11 +338,7 @@ def parseCases (ts : List String) : Option (List Case) :=
 
 /-! ### model side -/
 
-def endpointOf (c : Case) : Except CfgErr (Endpoint Cert (List Cert)) :=
-  match c.c.client with
-  | .notls => .ok (Endpoint.fromShared c.c.uri)
-  | .auto => Endpoint.new c.sys c.c.uri
-  | .ops l => (Endpoint.fromShared c.c.uri).tlsConfig c.sys (ClientTlsConfig.build l)
+def endpointOf (c : Case) : Except CfgErr (Endpoint Cert (List Cert)) := c.ep
 
 /-- The server of the case. `h2` is tonic's own acceptor configured through `ServerTlsConfig`;
 the other ALPN variants are a hand-rolled rustls acceptor given the same identity and the
@@ -272,6 +404,7 @@ def modelOut (c : Case) : String :=
   match serverOf c with
   | none => "server-config-unusable"
   | some srv =>
+    if c.c.cfgOnly then "cfg-only" else
     match endpointOf c with
     | .error e => s!"res=fail:config cfg=err:{cfgErrTok e} h=0 peer=- ext=- plain=0 dial=0"
     | .ok ep => outcomeToks c.s.twice (scenario ep srv c.s.inner handshake)
@@ -389,6 +522,7 @@ def handle (case obs : List String) : String × String :=
         let vs := (cs.zip groups).map fun (c, g) =>
           -- a server whose TLS configuration was refused serves nobody: nothing to judge
           if g = ["server-config-unusable"] then "ok" else
+          if c.c.cfgOnly then (if g = ["cfg-only"] then "ok" else "fail:unreadable-observation") else
           match parseObs g with
           | some o => specVerdict c o
           | none => "fail:unreadable-observation"
